@@ -98,12 +98,17 @@ func main() {
 			os.Exit(2)
 		}
 		sum := fw.Supervise(o)
+		if sum.Violations > 0 {
+			// violations were observed and printed: they decide the exit code even if the run also
+			// failed its own sanity conditions (e.g. a run cut short observes too little)
+			if sum.Broken != "" {
+				fmt.Printf("NOTE property=%s: %s\n", o.Prop, sum.Broken)
+			}
+			os.Exit(1)
+		}
 		if sum.Broken != "" {
 			fmt.Printf("BROKEN property=%s: %s\n", o.Prop, sum.Broken)
 			os.Exit(2)
-		}
-		if sum.Violations > 0 {
-			os.Exit(1)
 		}
 	default:
 		fmt.Fprintln(os.Stderr, "unknown subcommand", os.Args[1])
